@@ -96,8 +96,79 @@ def analyse_units(rep, units, funcs_re, member=None):
     return funcs, found
 
 
+RECURSION_EXCEPTIONS = {
+    "mtest::OxidationStatusEvolution::operator()": "evaluates the evolution registered under the fixed name 'r' by PipeTest itself (a constant "
+                                                   "evolution that an input file cannot redefine: addEvolution refuses an existing name); it cannot be part of a cycle",
+}
+
+
+def recursion_rule(rep):
+    """BOUNDED-RECURSION: a method of an evolution class that calls the method of the same name on another evolution taken from the
+    evolution manager recurses through user data (an evolution may name itself, directly or through others: the input decides).
+    Such a method must hold a re-entrancy guard while it does so: a local object whose constructor tests a boolean member of *this
+    (raising when it is set) and sets it, constructed before the recursive call; otherwise a cyclic definition in the input file
+    exhausts the stack."""
+    us = [u for u in units_under("mtest/src") if re.search(r"Evolution", os.path.basename(u))]
+    d = cfgdump(us, os.path.join(OUT, "C54", "evol"), funcs=r"^mtest::", root=os.path.join(REPO, "mtest"))
+    funcs = load_functions(d)
+    byq = {}
+    for f in funcs:
+        if f.parent is None:
+            byq.setdefault(f.qname, []).append(f)
+    n_ = 0
+    for f in funcs:
+        if f.parent is not None or f.cls is None or f.entry is None:
+            continue
+        me = f.qname.rsplit("::", 1)[-1]
+        rec = []
+        for s_, n in sorted(f.stmts.items()):
+            if n["k"] in ("CXXMemberCallExpr", "CXXOperatorCallExpr") and n.get("virtual") and (n.get("callee") or "").rsplit("::", 1)[-1] == me:
+                obj = n.get("obj") if n["k"] == "CXXMemberCallExpr" else (n.get("args") or [None])[0]
+                o = f.stmts.get(f.strip(obj)) if obj is not None else None
+                if o is not None and o["k"] == "CXXThisExpr":
+                    continue
+                rec.append(s_)
+        if not rec:
+            continue
+        if f.qname in RECURSION_EXCEPTIONS:
+            rep.ok("%s: %s" % (f.qname, RECURSION_EXCEPTIONS[f.qname]))
+            continue
+        n_ += 1
+        # a guard: local of class type constructed from a member of *this; its constructor raises when the flag is set and sets it
+        guarded = False
+        for s_, n in sorted(f.stmts.items()):
+            if n["k"] != "DeclStmt" or s_ > min(rec):
+                continue
+            for dd in n["decls"]:
+                if "init" not in dd:
+                    continue
+                ce = f.stmts.get(f.strip(dd["init"]))
+                if ce is None or ce["k"] != "CXXConstructExpr" or not ce.get("args"):
+                    continue
+                a0 = f.stmts.get(f.strip(ce["args"][0]))
+                if a0 is None or a0["k"] != "MemberExpr" or "bool" not in (a0.get("fieldType") or ""):
+                    continue
+                for g in byq.get(ce.get("callee") or "", []):
+                    tests = any(m_["k"] == "CallExpr" and (m_.get("callee") or "").endswith("raise_if") for m_ in g.stmts.values()) or \
+                        any(m_["k"] == "CXXThrowExpr" for m_ in g.stmts.values())
+                    sets = any(m_["k"] == "BinaryOperator" and m_.get("op") == "=" and
+                               any(g.stmts[x]["k"] == "CXXBoolLiteralExpr" and str(g.stmts[x].get("value")).lower() in ("true", "1")
+                                   for x in g.walk(g.kids(y)[1])) for y, m_ in g.stmts.items())
+                    if tests and sets:
+                        guarded = True
+        if guarded:
+            rep.ok("%s recurses through the evolution manager under a re-entrancy guard" % f.qname)
+        else:
+            rep.fail("BOUNDED-RECURSION@%s" % f.qname, "%s: %s calls %s on an evolution taken from the evolution manager without a re-entrancy guard: "
+                     "an input file in which an evolution depends on itself (e.g. @Evolution<function> 'x' 't*x';) recurses until the stack "
+                     "is exhausted" % (rel(f.short_loc(rec[0])), f.qname, me))
+    rep.count("methods recursing through the evolution manager", n_)
+    rep.floor("methods recursing through the evolution manager", 2)
+
+
 def run(tier):
     rep = Report("C54", tier, "other", RULE)
+    recursion_rule(rep)
     units = units_for(tier)
     funcs, found = analyse_units(rep, units, r"^(mtest::|tfel::utilities::CxxTokenizer)")
     seen = set()
